@@ -361,10 +361,11 @@ class IntervalTier(textgrid_tier.TextgridTier):
                 if interval.end <= start:
                     newEntryList.append(interval)
                 elif interval.start >= end:
+                    # The end of the erased region lands exactly on its start
+                    # (interval.start - diff can be off by rounding)
+                    newStart = start if interval.start == end else interval.start - diff
                     newEntryList.append(
-                        Interval(
-                            interval.start - diff, interval.end - diff, interval.label
-                        )
+                        Interval(newStart, interval.end - diff, interval.label)
                     )
 
             # Special case: an interval that spanned the deleted
@@ -389,6 +390,11 @@ class IntervalTier(textgrid_tier.TextgridTier):
                     break
 
             newMax = newTier.maxTimestamp - diff
+            # In exact arithmetic the shrunk tier cannot end before the start
+            # of the erased region; rounding can put it a hair below when the
+            # region reaches the end of the tier
+            if end <= newTier.maxTimestamp and newMax < start:
+                newMax = start
             newTier = newTier.new(entries=newEntryList, maxTimestamp=newMax)
 
         return newTier
